@@ -11,7 +11,7 @@ From DC Require Context.Model Context.Spec.
 From DC Require Collections.Model.
 From DC Require Causal.Model Causal.Entry Causal.Check.
 From DC Require CSM.Model.
-From DC Require Disruptor.Threads Disruptor.SeqApi Disruptor.PipeReplay Disruptor.MultiReplay Disruptor.LiveReplay Disruptor.MultiPipeReplay.
+From DC Require Disruptor.Threads Disruptor.SeqApi Disruptor.PipeReplay Disruptor.MultiReplay Disruptor.LiveReplay Disruptor.MultiPipeReplay Disruptor.Slots.
 
 Extraction Language OCaml.
 
@@ -30,4 +30,5 @@ Extraction "model.ml"
   CSM.Model.csm_check_entry
   Disruptor.Threads.ring_validate_entry
   Disruptor.SeqApi.seqapi_model_entry Disruptor.SeqApi.seqapi_check_entry
-  Disruptor.PipeReplay.pipe_replay_entry Disruptor.MultiReplay.ring_replay_entry Disruptor.LiveReplay.live_replay_entry Disruptor.MultiPipeReplay.multipipe_replay_entry.
+  Disruptor.PipeReplay.pipe_replay_entry Disruptor.MultiReplay.ring_replay_entry Disruptor.LiveReplay.live_replay_entry Disruptor.MultiPipeReplay.multipipe_replay_entry
+  Disruptor.Slots.ringslots_entry Disruptor.Slots.ringslots_spec_entry.
